@@ -3,6 +3,7 @@ package main
 import (
 	"encoding/json"
 	"fmt"
+	"sort"
 	"strings"
 
 	mvp70 "github.com/teivah/majorana/proc/mvp7-0"
@@ -172,10 +173,36 @@ const rigHorizon = 6000
 
 // rigRun executes one schedule; returns class/detail, controller cycles used,
 // and whether two requests overlapped in time on one line.
+// rigObserve, when non-nil, makes rigRun record what C08 compares across map
+// orders: the completion cycle and data of every request and the final state.
+type rigObservation struct {
+	Prefix      []int           // map-order choices to replay
+	Trace       []verifrt.Point // choice points met
+	SetupPoints int             // how many of them belong to the setup phase
+	Obs         string
+}
+
+var rigObserve *rigObservation
+
 func rigRun(k rigCase) (class, detail string, cycles int, overlapped bool) {
+	var obsLog []string
+	if o := rigObserve; o != nil {
+		verifrt.Begin(1<<40, 1<<40, 1<<40, true, o.Prefix)
+		defer func() {
+			o.Trace = append([]verifrt.Point(nil), verifrt.Trace...)
+			o.Obs = strings.Join(obsLog, ";") + "|" + class
+			verifrt.End()
+		}()
+	}
+	var earlier func() string
 	defer func() {
 		if p := recover(); p != nil {
 			class, detail = "panic", fmt.Sprint(p)
+			if earlier != nil {
+				if e := earlier(); e != "" {
+					class = e + "+panic"
+				}
+			}
 		}
 	}()
 	r := newRig(k.Variant, k.Cores)
@@ -202,6 +229,7 @@ func rigRun(k rigCase) (class, detail string, cycles int, overlapped bool) {
 			if e.Op == "read" {
 				d, done := r.Read(c, t, addrs)
 				if done {
+					obsLog = append(obsLog, fmt.Sprintf("c%d read %d done@%d=%v", c, e.Line, t, d))
 					for i := range d {
 						if d[i] != ref[int(e.Line)+i] {
 							return "wrong-read-value", fmt.Sprintf("cycle %d: core %d read line %d = %v, sequentially consistent memory holds %v", t, c, e.Line, d, ref[e.Line:e.Line+4])
@@ -212,6 +240,7 @@ func rigRun(k rigCase) (class, detail string, cycles int, overlapped bool) {
 			} else {
 				val := int8(100 + c*10 + int(e.At%7))
 				if r.Write(c, t, addrs, []int8{val, val, val, val}) {
+					obsLog = append(obsLog, fmt.Sprintf("c%d write %d done@%d", c, e.Line, t))
 					for i := 0; i < 4; i++ {
 						ref[int(e.Line)+i] = val
 					}
@@ -266,11 +295,41 @@ func rigRun(k rigCase) (class, detail string, cycles int, overlapped bool) {
 		}
 	}
 	checking = true
+	if o := rigObserve; o != nil {
+		o.SetupPoints = len(verifrt.Trace)
+		obsLog = nil
+	}
 	t0 := t
 	next := 0
 	inflightLine := make([]int32, k.Cores)
 	for i := range inflightLine {
 		inflightLine[i] = -1
+	}
+	// invariant violations do not stop the schedule: every distinct kind seen is part of the verdict
+	// (so that a new kind of violation is not masked by a listed one on the same schedule)
+	seenViol := map[string]bool{}
+	firstDetail := ""
+	earlier = func() string {
+		var ks []string
+		for k := range seenViol {
+			ks = append(ks, k)
+		}
+		sort.Strings(ks)
+		return strings.Join(ks, "+")
+	}
+	verdict := func(cl, d string) (string, string) {
+		if len(seenViol) == 0 {
+			return cl, d
+		}
+		if cl != "ok" {
+			seenViol[cl] = true
+		}
+		var ks []string
+		for k := range seenViol {
+			ks = append(ks, k)
+		}
+		sort.Strings(ks)
+		return strings.Join(ks, "+"), firstDetail
 	}
 	for ; t < t0+rigHorizon; t++ {
 		for next < len(k.Events) {
@@ -301,7 +360,19 @@ func rigRun(k rigCase) (class, detail string, cycles int, overlapped bool) {
 			}
 		}
 		if cl, d := step(cur); cl != "ok" {
-			return cl, d, t - t0, overlapped
+			if cl == "wrong-read-value" || strings.HasPrefix(cl, "negative") {
+				c2, d2 := verdict(cl, d)
+				if firstDetail == "" {
+					d2 = d
+				}
+				return c2, d2, t - t0, overlapped
+			}
+			if !seenViol[cl] {
+				seenViol[cl] = true
+				if firstDetail == "" {
+					firstDetail = d
+				}
+			}
 		}
 		done := next == len(k.Events)
 		for c := 0; c < k.Cores; c++ {
@@ -310,11 +381,16 @@ func rigRun(k rigCase) (class, detail string, cycles int, overlapped bool) {
 			}
 		}
 		if done {
-			// final: memory + modified lines must equal the reference (coherent view)
-			return "ok", "", t - t0, overlapped
+			if rigObserve != nil {
+				sn := r.Snapshot()
+				obsLog = append(obsLog, fmt.Sprintf("end@%d states=%v mem=%v", t-t0, sn.States, r.Memory()[:192]))
+			}
+			cl, d := verdict("ok", "")
+			return cl, d, t - t0, overlapped
 		}
 	}
-	return "no-completion", fmt.Sprintf("requests still outstanding after %d cycles", rigHorizon), rigHorizon, overlapped
+	cl, d := verdict("no-completion", fmt.Sprintf("requests still outstanding after %d cycles", rigHorizon))
+	return cl, d, rigHorizon, overlapped
 }
 
 func rigOffsets(tier string, k int) []int {
@@ -632,21 +708,30 @@ func c06Monitor(cfg *pxConfig, text string, in *pxInit) (class, detail string, c
 	if !ref.WellFormed || ref.Err != "" {
 		return "ok", "", 0, false
 	}
-	first, firstDetail := "ok", ""
+	kinds := map[string]bool{}
+	firstDetail := ""
 	out := pxExec(cfg, text, in, &ref, false, nil, func(vm vmIface) {
-		if first != "ok" {
-			return
-		}
 		sn, isMSI := vm.(verifrt.MSISnapshotter)
 		if !isMSI {
 			return
 		}
 		s := sn.VerifSnapshot()
-		if cl, d := checkMSI(&s); cl != "ok" {
-			first, firstDetail = cl, fmt.Sprintf("cycle boundary %d: %s", verifrt.Cycles, d)
+		if cl, d := checkMSI(&s); cl != "ok" && !kinds[cl] {
+			kinds[cl] = true
+			if firstDetail == "" {
+				firstDetail = fmt.Sprintf("cycle boundary %d: %s", verifrt.Cycles, d)
+			}
 		}
 	})
-	return first, firstDetail, out.VCycle, true
+	if len(kinds) == 0 {
+		return "ok", "", out.VCycle, true
+	}
+	var ks []string
+	for k := range kinds {
+		ks = append(ks, k)
+	}
+	sort.Strings(ks)
+	return strings.Join(ks, "+"), firstDetail, out.VCycle, true
 }
 
 func c06MonitorRun(c *RunCtx) {
